@@ -442,9 +442,94 @@ fn run_session(
     next
 }
 
+/// mode "snapmgr": the real RaftSnapshotManager (+ index manager) in a temp directory.
+/// ops: ["own", last_index, [members]]      NewSnapshot(header) -> writer actor -> Flush -> CompleteSnapshot (a compaction)
+///      ["install", last_index, [members]]  NewSnapshotForLoad -> a real snapshot file with that header -> InstallSnapshot
+///      ["reopen"]                          a new manager over the same directory
+/// after every op: what GetLastSnapshot answers - the header that `get_current_snapshot` would stream to a lagging node
+fn run_snapmgr(dir: &str, ops: &[Value]) -> Vec<Value> {
+    use rnacos::raft::filestore::log::SnapshotRange;
+    use rnacos::raft::filestore::model::SnapshotHeaderDto;
+    use rnacos::raft::filestore::raftsnapshot::{
+        RaftSnapshotManager, RaftSnapshotRequest, RaftSnapshotResponse, SnapshotWriter, SnapshotWriterRequest,
+    };
+    let dir = dir.to_owned();
+    let ops = ops.to_vec();
+    let sys = actix_rt::System::new();
+    sys.block_on(async move {
+        let base = Arc::new(dir.clone());
+        let index = RaftIndexManager::new(base.clone()).start();
+        let snap = RaftSnapshotManager::new(base.clone(), Some(index.clone())).start();
+        tokio::time::sleep(std::time::Duration::from_millis(50)).await;
+        let mut out = vec![];
+        let hdr = |op: &Value| SnapshotHeaderDto {
+            last_index: op[1].as_u64().unwrap_or(0),
+            last_term: 1 + op[1].as_u64().unwrap_or(0) % 3,
+            member: u64s(&op[2]),
+            member_after_consensus: vec![],
+            node_addrs: Default::default(),
+        };
+        for op in &ops {
+            match op[0].as_str().unwrap_or("") {
+                "own" => {
+                    let h = hdr(op);
+                    if let Ok(Ok(RaftSnapshotResponse::NewSnapshot(w, id, _path))) = snap.send(RaftSnapshotRequest::NewSnapshot(h.clone())).await {
+                        w.send(SnapshotWriterRequest::Flush).await.ok();
+                        snap.send(RaftSnapshotRequest::CompleteSnapshot(SnapshotRange { id, end_index: h.last_index })).await.ok();
+                    }
+                }
+                "install" => {
+                    let h = hdr(op);
+                    if let Ok(Ok(RaftSnapshotResponse::NewSnapshotForLoad(path, id))) = snap.send(RaftSnapshotRequest::NewSnapshotForLoad).await {
+                        if let Ok(mut w) = SnapshotWriter::init(&path, h.clone()).await {
+                            w.flush().await.ok();
+                        }
+                        snap.send(RaftSnapshotRequest::InstallSnapshot { end_index: h.last_index, snapshot_id: id }).await.ok();
+                    }
+                }
+                // "reopen" starts a new segment (handled by the caller: the actors of a segment die with its System)
+                _ => {}
+            }
+            tokio::time::sleep(std::time::Duration::from_millis(30)).await;
+            let cur = match snap.send(RaftSnapshotRequest::GetLastSnapshot).await {
+                Ok(Ok(RaftSnapshotResponse::LastSnapshot(p, h))) => json!({
+                    "file": p.map(|x| x.rsplit('/').next().unwrap_or("").to_owned()),
+                    "header": h.map(|h| json!({"last_index": h.last_index, "last_term": h.last_term, "member": h.member})),
+                }),
+                _ => json!("err"),
+            };
+            out.push(cur);
+        }
+        out
+    })
+}
+
 impl Suite for IndexFile {
     fn run(&mut self, case: &Value) -> Value {
         let mode = case["mode"].as_str().unwrap_or("actor").to_owned();
+        if mode == "snapmgr" {
+            let base = std::env::var("RNVERIF_TMP").unwrap_or_else(|_| ".".to_owned());
+            let tmp = tempfile::Builder::new().prefix("sm").tempdir_in(base).unwrap();
+            let d = tmp.path().to_string_lossy().into_owned();
+            let ops: Vec<Value> = case["ops"].as_array().cloned().unwrap_or_default();
+            return match catch_unwind(AssertUnwindSafe(|| {
+                // one actix System per segment between "reopen"s: dropping it releases the directory lock
+                let mut obs = vec![];
+                let mut seg: Vec<Value> = vec![];
+                for op in ops.iter().chain(std::iter::once(&json!(["reopen"]))) {
+                    seg.push(op.clone());
+                    if op[0].as_str() == Some("reopen") {
+                        obs.extend(run_snapmgr(&d, &seg));
+                        seg.clear();
+                    }
+                }
+                obs.pop();      // the sentinel
+                obs
+            })) {
+                Ok(o) => json!({"r":"ok","obs":o}),
+                Err(_) => json!({"r":"panic"}),
+            };
+        }
         let store_mode = mode == "store" || case["store"].as_bool().unwrap_or(false);
         let marks = case["marks"].as_bool().unwrap_or(false);
         let ops: Vec<Value> = case["ops"].as_array().cloned().unwrap_or_default();
